@@ -192,6 +192,7 @@ type relayRig struct {
 	mode        string // C04 | C17 (a limits directive in front of the proxy)
 	limit       int    // C17: body limit on /api
 	hosts       int    // upstream hosts (2 = retries enabled: the body is buffered first)
+	noHijack    bool   // the front connection cannot be hijacked (as over HTTP/2): a backend that answers 101 cannot be obeyed
 	pathRule    bool   // a header_upstream rule copies {path} into a field
 	deadFirst   bool   // the first of two hosts refuses connections: every request is retried at the second
 	cutFirst    bool   // the first of two hosts accepts, reads the beginning of the request and resets the connection
@@ -305,6 +306,9 @@ func setupRelayProxy(c *casket.Controller) error {
 	httpserver.GetConfig(c).AddMiddleware(func(next httpserver.Handler) httpserver.Handler {
 		px := proxy.Proxy{Next: next, Upstreams: ups}
 		return httpserver.HandlerFunc(func(w http.ResponseWriter, req *http.Request) (int, error) {
+			if rig.noHijack {
+				w = plainWriter{w}
+			}
 			m := &rwMonitor{ResponseWriterWrapper: &httpserver.ResponseWriterWrapper{ResponseWriter: w}, rig: rig, owner: goid(), id: req.Header.Get("X-Req")}
 			req = req.WithContext(context.WithValue(req.Context(), relayReqKey{}, req.Header.Get("X-Req")))
 			st, err := px.ServeHTTP(m, req)
@@ -322,6 +326,20 @@ func setupRelayProxy(c *casket.Controller) error {
 // reports overlapping calls, and it turns a Flush made by another goroutine
 // than the handler's (the proxy's periodic flusher) into a scheduling point
 // whenever that Flush holds none of the proxy's writer locks.
+// plainWriter is a ResponseWriter that can be flushed and tells when its client has gone, but
+// cannot be hijacked: what net/http hands out over HTTP/2.
+type plainWriter struct{ http.ResponseWriter }
+
+func (p plainWriter) Flush() {
+	if f, ok := p.ResponseWriter.(http.Flusher); ok {
+		f.Flush()
+	}
+}
+
+func (p plainWriter) CloseNotify() <-chan bool {
+	return p.ResponseWriter.(http.CloseNotifier).CloseNotify()
+}
+
 type rwMonitor struct {
 	*httpserver.ResponseWriterWrapper
 	rig    *relayRig
@@ -599,6 +617,7 @@ func runRelayIn(c *sim.Ctl, mode string) {
 		r.downRules = append(r.downRules, [2]string{"Alt-Svc", "clear"})
 	}
 	r.regexRules = pick(25)
+	r.noHijack = mode == "C04" && r.hosts == 1 && !r.faults && pick(15)
 	r.countFails = r.hosts == 1 && !r.faults && mode == "C04" && pick(40)
 	if r.countFails && pick(50) {
 		// a rule that copies decoded request text into a header field (as "transparent"-like set-ups
@@ -826,6 +845,12 @@ func (r *relayRig) addReq(i int) {
 		r.c.Fault("backend-status-below-100")
 	}
 	sc.hdrs = [][2]string{{"Content-Type", "text/plain"}, {"X-Backend", fmt.Sprintf("b%d", i)}}
+	if r.noHijack && !r.countFails && pick(40) {
+		// the backend switches protocols although the front connection cannot: a gateway error, never a panic
+		sc.status = 101
+		sc.hdrs = append(sc.hdrs, [2]string{"Upgrade", "websocket"}, [2]string{"Connection", "Upgrade"})
+		r.c.Fault("backend-answers-101-on-a-connection-that-cannot-be-hijacked")
+	}
 	if pick(50) {
 		sc.hdrs = append(sc.hdrs, [2]string{"X-Dup", "first"}, [2]string{"X-Dup", "second"})
 	}
@@ -1184,6 +1209,12 @@ func (r *relayRig) judge() {
 			continue
 		}
 		resp := fin[0]
+		if sc.status == 101 {
+			if resp.Status != 502 {
+				c.Violate("C04/status-changed", "backend-101-without-hijacker", "request %d: the backend answered 101 Switching Protocols on a front connection that cannot be hijacked; the client got %d, want 502", q.id, resp.Status)
+			}
+			continue
+		}
 		if sc.status < 100 {
 			// not a status that can be passed on: a gateway error is the answer (never a panic)
 			if resp.Status != 502 {
